@@ -568,6 +568,155 @@ class C09:
             return "empty-stream-lost"
         return None
 
+    # -- restart of the real server over TCP (the wiring SAVE command -> RdbEngine::save, start-up -> RdbEngine::load) ----
+    def tcp_restart(self, ds, down_ms, name):
+        """populate a real server with commands, SAVE, stop it, wait, start a new one on the same directory and read
+        everything back with point reads (TYPE/GET/LLEN+LINDEX/SCARD+SISMEMBER/HLEN+HGET/ZCARD+ZSCORE/XLEN+XRANGE id id/PTTL/DBSIZE)"""
+        import time as _t
+        from server import Server
+        rep = self.rep
+
+        def score_text(bits):
+            x = struct.unpack("<d", struct.pack("<Q", bits))[0]
+            return "inf" if x == float("inf") else "-inf" if x == float("-inf") else repr(x)
+
+        def ok(reply, what):
+            if reply[0] == "e":
+                raise InternalError("tcp case %s: %s refused: %r" % (name, what, reply[1][:80]))
+            return reply
+
+        srv = Server("c09")
+        keep = srv.dir
+        try:
+            c = srv.client()
+            for db, es in ds:
+                ok(c.cmd("SELECT", db), "SELECT")
+                for e in es:
+                    k, t, v = e["key"], e["ty"], e["val"]
+                    if t == "S":
+                        ok(c.cmd("SET", k, v), "SET")
+                    elif t == "L":
+                        ok(c.cmd("RPUSH", k, *v), "RPUSH")
+                    elif t == "T":
+                        ok(c.cmd("SADD", k, *v), "SADD")
+                    elif t == "H":
+                        ok(c.cmd("HSET", k, *[x for p in v for x in p]), "HSET")
+                    elif t == "Z":
+                        for m, b in v:
+                            ok(c.cmd("ZADD", k, score_text(b), m), "ZADD")
+                    elif t == "X":
+                        for ms, sq, fs in v:
+                            ok(c.cmd("XADD", k, "%d-%d" % (ms, sq), *[x for p in fs for x in p]), "XADD")
+                        if not v:
+                            ok(c.cmd("XADD", k, "1-0", "a", "b"), "XADD")
+                            ok(c.cmd("XDEL", k, "1-0"), "XDEL")
+                    if e["dl"] is not None:
+                        ok(c.cmd("PEXPIRE", k, e["dl"]), "PEXPIRE")
+            # deadlines as the server sees them, on this machine's wall clock
+            dls = {}
+            for db, es in ds:
+                c.cmd("SELECT", db)
+                for e in es:
+                    if e["dl"] is not None:
+                        p = c.cmd("PTTL", e["key"])
+                        dls[(db, e["key"])] = int(_t.time() * 1000) + p[1] if p[0] == "i" and p[1] >= 0 else None
+            ts0 = int(_t.time() * 1000)
+            ok(c.cmd("SAVE", timeout=30), "SAVE")
+            ts1 = int(_t.time() * 1000)
+            c.close()
+            f = open(os.path.join(keep, "dump.rdb"), "rb").read()
+            srv.stop(remove=False)
+            _t.sleep(down_ms / 1000.0)
+            tl0 = int(_t.time() * 1000)
+            srv = Server("c09", keep_dir=keep)
+            tl1 = int(_t.time() * 1000)
+            c = srv.client()
+            got = {}
+            extra_keys = 0
+            for db, es in ds:
+                c.cmd("SELECT", db)
+                present = 0
+                for e in es:
+                    k, t, v = e["key"], e["ty"], e["val"]
+                    ty = c.cmd("TYPE", k)[1]
+                    if ty == b"none":
+                        continue
+                    present += 1
+                    p = c.cmd("PTTL", k)
+                    dl = int(_t.time() * 1000) + p[1] if p[0] == "i" and p[1] >= 0 else None
+                    if ty == b"string":
+                        got[(db, k)] = (dl, "S", c.cmd("GET", k)[1])
+                    elif ty == b"list":
+                        n = c.cmd("LLEN", k)[1]
+                        got[(db, k)] = (dl, "L", tuple(c.cmd("LINDEX", k, i)[1] for i in range(n)))
+                    elif ty == b"set":
+                        n = c.cmd("SCARD", k)[1]
+                        ms = tuple(sorted(m for m in (v if t == "T" else []) if c.cmd("SISMEMBER", k, m)[1] == 1))
+                        got[(db, k)] = (dl, "T", ms if len(ms) == n else ms + (b"<%d unknown members>" % (n - len(ms)),))
+                    elif ty == b"hash":
+                        n = c.cmd("HLEN", k)[1]
+                        fs = tuple(sorted((fl, r[1]) for fl, _ in (v if t == "H" else []) for r in [c.cmd("HGET", k, fl)] if r[0] == "b"))
+                        got[(db, k)] = (dl, "H", fs if len(fs) == n else fs + ((b"<unknown fields>", b"%d" % (n - len(fs))),))
+                    elif ty == b"zset":
+                        n = c.cmd("ZCARD", k)[1]
+                        zs = []
+                        for m, b in (v if t == "Z" else []):
+                            r = c.cmd("ZSCORE", k, m)
+                            if r[0] == "b":
+                                x = float(r[1].decode())
+                                zs.append((m, b if x == struct.unpack("<d", struct.pack("<Q", b))[0] else struct.unpack("<Q", struct.pack("<d", x))[0]))
+                        zs = tuple(sorted(zs))
+                        got[(db, k)] = (dl, "Z", zs if len(zs) == n else zs + ((b"<unknown members>", n - len(zs)),))
+                    elif ty == b"stream":
+                        n = c.cmd("XLEN", k)[1]
+                        xs = []
+                        cand = [(ms, sq) for ms, sq, _ in v] if t == "X" else [(1, 0)] if t == "L" else []
+                        for ms, sq in cand:
+                            r = c.cmd("XRANGE", k, "%d-%d" % (ms, sq), "%d-%d" % (ms, sq))
+                            if r[0] == "a" and len(r[1]) == 1:
+                                flat = [x[1] for x in r[1][0][1][1][1]]
+                                xs.append((ms, sq, tuple(sorted(pairs(flat)))))
+                        xs = tuple(xs)
+                        got[(db, k)] = (dl, "X", xs if len(xs) == n else xs + ((0, 0, ((b"<unknown entries>", b"%d" % (n - len(xs))),)),))
+                    else:
+                        got[(db, k)] = (dl, ty.decode(), None)
+                extra_keys += max(0, c.cmd("DBSIZE")[1] - present)
+            c.close()
+        finally:
+            srv.stop(remove=True)
+        rep.evaluations += 1
+        rep.count("case.tcp-restart")
+        c0 = {}
+        for (key, (dl, t, v)) in canon(ds).items():
+            c0[key] = (dls.get(key) if dl is not None else None, t, v)
+        indet = set(k for k, (dl, _, _) in c0.items() if dl is not None and (tl0 - TOL <= dl <= tl1 + TOL or ts0 - TOL <= dl <= ts1 + TOL))
+        spec = {k: v for k, v in c0.items() if v[0] is None or v[0] > tl1}
+        diffs = diff(got, spec, indet)
+        if extra_keys:
+            diffs.append((("*", b"*"), "extra-keys:%d" % extra_keys, None, None))
+        case = {"name": name, "kind": "tcp-restart", "ds": ds, "down": down_ms}
+        for dfx in diffs:
+            m = self.classify(dfx, c0, ts0, tl1)
+            if m:
+                self.known_hits.setdefault(m, (case, self.show_diff(dfx)))
+                rep.count("known." + m)
+            else:
+                self.oracle_failures.append((name, dfx, case, {"path": "TCP: commands, SAVE, server restart, point reads", "file": hx(f[:4000])}))
+        rep.nontrivial(("tcp", len(ds), bool(diffs), bool(down_ms)))
+        # the same file through the in-process loader and through the model: all three must tell the same story
+        w = self.iask("load " + hx(f)).split(" ")
+        _, ads = self.dump()
+        now2 = (int(w[1]) + int(w[2])) // 2
+        ca = canon(ads)
+        near = indet | set(k for k, (dl, _, _) in c0.items() if dl is not None and abs(dl - now2) <= TOL + (now2 - tl0))
+        dd = diff(got, ca, near)
+        if dd:
+            self.disagreements.append({"what": "server restart and in-process RdbEngine::load disagree on the same dump.rdb", "diff": [self.show_diff(x) for x in dd[:4]], "file": hx(f[:2000])})
+        r = self.lean_dec(tl1, f)
+        dd = diff(got, canon(r[3]) if r[0] == "ok" else {}, indet)
+        if dd:
+            self.disagreements.append({"what": "server restart and model decSnapshot disagree on the same dump.rdb", "diff": [self.show_diff(x) for x in dd[:4]], "file": hx(f[:2000])})
+
     # -- corrupted files: model loader vs real loader ---------------------------
     def run_file(self, name, f, kind):
         rep = self.rep
@@ -666,6 +815,18 @@ class C09:
         for i in range(n_down):
             ds = gen_dataset(rr, [None, 100000, 120, 160, 200])
             self.run_case({"name": "random-downtime-%d" % i, "kind": "random-ttl", "ds": ds, "down": 420})
+        # the same through a real server over TCP: all 16 databases, every type, long and short TTLs, a real restart
+        LONG = 100000
+        tr = r.fork("tcp")
+        tds = [(i, [{"key": b"k%d" % i, "dl": [None, LONG, 150][i % 3], "ty": "SLTHZX"[i % 6], "val": gen_value(tr, "SLTHZX"[i % 6])},
+                    {"key": b"same", "dl": None, "ty": "S", "val": b"db%d" % i}]) for i in range(16)]
+        tds[5][1].append({"key": b"emptystream", "dl": None, "ty": "X", "val": []})
+        tds[6][1].append({"key": b"z", "dl": LONG, "ty": "Z", "val": [(b"m%d" % i, b) for i, b in enumerate(SCORES) if b not in (0x8000000000000001,)]})
+        tds[7][1].append({"key": b"markerlist", "dl": None, "ty": "L", "val": [MARKER, b"1-0", b"1", b"f", b"v"]})
+        tds[8][1].append({"key": b"big", "dl": None, "ty": "S", "val": tr.bytes(16384)})
+        self.tcp_restart(tds, 450, "tcp-restart-16dbs")
+        for i in range(0 if tier == "quick" else 12):
+            self.tcp_restart(gen_dataset(tr, [None, LONG, 140, 200]), 420, "tcp-restart-random-%d" % i)
         # loader inputs the writer never produces
         for name, f in handmade(self.facts["version"]):
             self.run_file(name, f, "handmade")
@@ -740,8 +901,8 @@ def shrink_case(c, chk, case):
     # then shrink inside the collections
     for idx in range(len(items)):
         db, e = items[idx]
-        if e["ty"] != "S" and len(e["val"]) > 1:
-            for keep in (1, 2, len(e["val"]) // 2):
+        if len(e["val"]) > 1:
+            for keep in (1, 2, 64, len(e["val"]) // 2, len(e["val"]) * 3 // 4, len(e["val"]) - 1):
                 cand = list(items)
                 cand[idx] = (db, dict(e, val=e["val"][:keep]))
                 if keep < len(e["val"]) and fails(cand):
@@ -771,6 +932,7 @@ def main(tier, seed):
     rep.extra["source_facts"] = facts
     ok, log, errs = proof_phase(rep, families=[FAMILY])
     build_harness(FAMILY)
+    build_server()
     c = C09(rep, facts)
     try:
         c.run(seed, tier)
@@ -791,12 +953,15 @@ def main(tier, seed):
             c.disagreements.append({"what": "stream marker literal %r not found at both the writer and the loader site of rdb.rs" % MARKER.decode()})
         if c.oracle_failures:
             name, dfx, case, info = min(c.oracle_failures, key=lambda x: len(tokens(x[2]["ds"])))
-            small = shrink_case(c, c, case) if dfx[1] != "load-failed" or True else case
+            small = shrink_case(c, c, case) if case.get("kind") != "tcp-restart" else case
             new, diffs = c.run_case(small, record=False)
             if not new:
                 small, new = case, [dfx]
-            rep.violation("C09 restart oracle fails: after SAVE + restart db %s key %s is %s, prescribed %s (%s)" % (
-                              new[0][0][0], short(new[0][0][1]), describe(new[0][2]), describe(new[0][3]), new[0][1]),
+            what = ("C09 restart oracle fails: the file written by SAVE is refused by the loader (nothing or only a part of the dataset is restored)"
+                    if new[0][1] == "load-failed" else
+                    "C09 restart oracle fails: after SAVE + restart db %s key %s is %s, prescribed %s (%s)" % (
+                        new[0][0][0], short(new[0][0][1]), describe(new[0][2]), describe(new[0][3]), new[0][1]))
+            rep.violation(what,
                           {"replay": {"dataset": tokens(small["ds"]), "pre_save_sleep_ms": small.get("pre", 0), "downtime_ms": small.get("down", 0),
                                       "diffs": [c.show_diff(x) for x in new[:6]], "case": name, "info": info},
                            "family": FAMILY, "others": [{"case": n, "diff": c.show_diff(d)} for n, d, _, _ in c.oracle_failures[:6]], "lean_errors": errs[:5]})
